@@ -54,6 +54,7 @@ EncLen(v, esc) ==
   CASE v.t = "null" -> 4
     [] v.t = "bool" -> IF v.b THEN 4 ELSE 5
     [] v.t = "num"  -> Len(v.lit)
+    [] v.t = "raw"  -> Len(v.b)                   \* bytes a custom marshaler contributed (GoEnc.tla)
     [] v.t = "str"  -> 2 + EncCpsLen(v.cp, esc)
     [] v.t = "arr"  -> LET n == Len(v.e)
                            f[i \in 0..n] == IF i = 0 THEN 0 ELSE f[i-1] + EncLen(v.e[i], esc)
@@ -74,6 +75,7 @@ Enc(v, esc) ==
   CASE v.t = "null" -> <<110,117,108,108>>
     [] v.t = "bool" -> IF v.b THEN <<116,114,117,101>> ELSE <<102,97,108,115,101>>
     [] v.t = "num"  -> v.lit
+    [] v.t = "raw"  -> v.b
     [] v.t = "str"  -> EncStr(v.cp, esc)
     [] v.t = "arr"  -> LET n == Len(v.e)
                            f[i \in 0..n] == IF i = 0 THEN <<>>
